@@ -14,9 +14,10 @@ Local Open Scope Z_scope.
 
 (* T: where the cache file lives and when it is believed, as the source says it now (Gen/CacheSite.v, regenerated
    from handlers/dir.py on every run): options read = {cachefile, cachetime, ignorepatt}; one file per directory,
-   `selector + "/" + cachefile` (injective in the selector); freshness test
-   `time.time() - statval[ST_MTIME] < cachetime` evaluated inside loadcache(); both loadcache() and savecache()
-   leave an unwritable VFS (archives) alone. *)
+   `selector + "/" + cachefile` (injective in the selector; trivial helper methods inlined); the way to a hit in
+   loadcache() is: iswritable guard, stat (OSError = miss), `time.time() - statval[ST_MTIME] < cachetime`, open + load
+   (any exception = miss); the way to the write in savecache() is: not fromcache, iswritable guard, open 'wb' + dump
+   (IOError ignored) -- compared as sequences of guards and file operations, not statement shapes. *)
 Theorem C10_cache_site_is_modelled : cache_site_check = true.
 Proof. exact cache_site_as_modelled. Qed.
 Print Assumptions C10_cache_site_is_modelled.
